@@ -582,10 +582,18 @@ macro_rules! adapters {
                 }
                 // a model after one or two passes
                 let passes = 1 + k.pick(2);
+                // half of the models are additionally trained through the public `update` entry point after the
+                // `fit_with` passes (a model with a mixed history)
+                let then_update = k.flag();
+                obs.class_if(then_update, "ftrl_fit_with_then_update");
                 let model = match vengine::guard(|| {
                     let mut m = params.fit_with(None, &ds)?;
                     for _ in 1..passes {
                         m = params.fit_with(Some(m), &ds)?;
+                    }
+                    if then_update {
+                        let pr: Array1<Pr> = m.predict(ds.records());
+                        let _ = m.update(&ds, pr.view());
                     }
                     Ok::<_, linfa_ftrl::FtrlError>(m)
                 }) {
